@@ -163,7 +163,11 @@ WHERE (
 -- name: DeleteCanceledInvoices :execresult
 DELETE
 FROM invoices
-WHERE state = 2;
+WHERE state = 2 AND NOT EXISTS (
+    SELECT 1
+    FROM invoice_htlcs
+    WHERE invoice_htlcs.invoice_id = invoices.id
+);
 
 -- name: InsertInvoiceHTLC :one
 INSERT INTO invoice_htlcs (
